@@ -52,7 +52,10 @@ def run_sharded(prop, tier, seed, nshards, timeout):
         out = os.path.join(tmpdir, f'shard{i}.json')
         cmd = [sys.executable, '-m', 'vlib.main', prop, tier, '--shard', str(i), str(nshards), '--out', out]
         env = dict(os.environ, VERIF_SEED=str(seed))
-        procs.append((i, out, subprocess.Popen(cmd, env=env, stdout=subprocess.PIPE, stderr=subprocess.STDOUT)))
+        # (what a shard prints goes to a file of its own, never to a pipe: the shards are waited for one after the other and
+        # a talkative one - python -X dev reports every unclosed file - would otherwise sleep on a full pipe until all the
+        # shards before it are done)
+        procs.append((i, out, subprocess.Popen(cmd, env=env, stdout=open(out + '.log', 'wb'), stderr=subprocess.STDOUT)))
     # interpreter flavour: shard 0's workload once more under `python -O` (asserts compiled away, __debug__ False) and, in
     # the thorough tier, under `python -OO` (docstrings stripped as well): how the interpreter was started is part of the
     # machine the tool runs on.  Contract libraries switch themselves off there; the oracles of the checks do not.
@@ -72,27 +75,33 @@ def run_sharded(prop, tier, seed, nshards, timeout):
             out = os.path.join(tmpdir, f'shard0{flag}.json')
             cmd = [sys.executable, *flags, '-m', 'vlib.main', prop, tier, '--shard', '0', str(nshards), '--out', out]
             env = dict(os.environ, VERIF_SEED=str(seed), VERIF_FLAVOUR=f'python {" ".join(flags)}')
-            procs.append((f'0 under python {" ".join(flags)}', out, subprocess.Popen(cmd, env=env, stdout=subprocess.PIPE,
+            procs.append((f'0 under python {" ".join(flags)}', out, subprocess.Popen(cmd, env=env, stdout=open(out + '.log', 'wb'),
                                                                                        stderr=subprocess.STDOUT)))
     merged = core.Result()
     deadline = time.time() + timeout
     for i, out, p in procs:
         try:
-            stdout, _ = p.communicate(timeout=max(1, deadline - time.time()))
+            p.wait(timeout=max(1, deadline - time.time()))
         except subprocess.TimeoutExpired:
             p.kill()
-            stdout, _ = p.communicate()
+            p.wait()
             merged.inconclusive.append(f'shard {i} hit the wall-clock watchdog ({timeout}s)')
             continue
         if os.path.exists(out):
             with open(out) as fd:
                 merged.merge(core.Result.from_json(json.load(fd)))
         else:
-            tail = stdout.decode('utf-8', 'replace')[-1500:]
+            try:
+                with open(out + '.log', 'rb') as fd:
+                    fd.seek(max(0, os.path.getsize(out + '.log') - 1500))
+                    tail = fd.read().decode('utf-8', 'replace')
+            except OSError:
+                tail = ''
             merged.inconclusive.append(f'shard {i} produced no result (exit {p.returncode}): {tail}')
     for i, out, p in procs:
-        if os.path.exists(out):
-            os.unlink(out)
+        for path in (out, out + '.log'):
+            if os.path.exists(path):
+                os.unlink(path)
     try:
         os.rmdir(tmpdir)
     except OSError:
